@@ -62,7 +62,38 @@ JudgeLeak(o) ==
     IF Len(o.attempts2) < 2 \/ Len(o.fails2) < 1 THEN "Leak:second-state-not-retried"
     ELSE IF o.attempts2[2] - o.fails2[1] = o.interval2 * 1000 THEN "ok" ELSE "CountersDoNotLeak"
 
-Judge(o) == IF o.kind = "policy" THEN Walk(o, 1) ELSE JudgeLeak(o)
+(* Two levels: a retried Parallel/Map (retriers) whose branch starts with a retried Task  *)
+(* (inner).  Every entry of the branch gives the inner state fresh counters; the outer    *)
+(* state's counters count its own re-runs only.  k0 = first attempt of the current entry, *)
+(* oh = errors with which the outer state has failed so far.                              *)
+Inner(o) == [j \in 1..Len(o.inner) |-> RetrierRec(o.inner[j])]
+RECURSIVE Walk2(_, _, _, _)
+Walk2(o, k, k0, oh) ==
+    IF k > Len(o.attempts) THEN "Attempts:missing"
+    ELSE LET out == Outcome(o, k) IN
+    IF out = "ok"
+    THEN (IF k = Len(o.attempts) /\ o.final.kind = "succeeded" THEN "ok" ELSE "Final:expected-success")
+    ELSE LET ih == [j \in 1..(k - k0 + 1) |-> Outcome(o, k0 + j - 1)]
+             d == RetryDecision(Inner(o), ih)
+         IN IF d.act = "open" THEN "ok"
+            ELSE IF d.act = "retry"
+            THEN (IF k + 1 > Len(o.attempts) THEN "Retry:missing-attempt(inner)"
+                  ELSE IF k > Len(o.fails) THEN "Retry:failure-not-observed"
+                  ELSE IF (o.attempts[k + 1] - o.fails[k]) \notin d.delays THEN "CountersDoNotLeak:inner-delay"
+                  ELSE Walk2(o, k + 1, k0, oh))
+            ELSE LET oh2 == Append(oh, out)
+                     od == RetryDecision(Retriers(o), oh2)
+                 IN IF od.act = "open" THEN "ok"
+                    ELSE IF od.act = "retry"
+                    THEN (IF k + 1 > Len(o.attempts) THEN "CountersDoNotLeak:outer-retry-missing"
+                          ELSE IF k > Len(o.fails) THEN "Retry:failure-not-observed"
+                          ELSE IF (o.attempts[k + 1] - o.fails[k]) \notin od.delays THEN "CountersDoNotLeak:outer-delay"
+                          ELSE Walk2(o, k + 1, k + 1, oh2))
+                    ELSE IF k # Len(o.attempts) THEN "Retry:extra-attempt"
+                    ELSE IF o.final.kind = "failed" /\ o.final.error = out THEN "ok"
+                    ELSE "Final:expected-failure-with-the-error"
+
+Judge(o) == IF o.kind = "policy" THEN Walk(o, 1) ELSE IF o.kind = "nested" THEN Walk2(o, 1, 1, <<>>) ELSE JudgeLeak(o)
 
 Known == JsonDeserialize(IOEnv.KNOWN_FINDINGS)
 ActiveK == {Known.findings[j].id : j \in {j \in 1..Len(Known.findings) : Known.findings[j].status = "known"}}
